@@ -168,21 +168,21 @@ PROPS = {
         "level_text": "Props/C10 (sequential content, all stores, start/stop blocks, bundle sizes, handler budgets): run_spec — the delivered sequence is a prefix of the stored eligible blocks (first block at or above the start block onwards, bundles in ascending order) in exactly stored order, each once, parent-linked; it is the whole of it when the run ends with stop-block-reached; on a non-sequential error it stopped exactly before the offending block (the block after the delivered prefix, whose parent is not the last delivered id); handler_error_stops_file. 'For every relative timing of the parallel preprocessors' and 'paired with the preprocessor result computed for that same block': pipeline_order_any_schedule — in the interleaving model of streamReader's skeleton (one result channel per block queued in read order on a bounded channel, workers finishing in any order, a forwarder waiting for the oldest queued result) the consumer receives, for every schedule, a prefix of the blocks in read order each with its own preprocess result, and all of them when nothing is left; pipeline_no_deadlock; pipeline_skeleton_in_source ties the skeleton to /repo (go/ast facts resultChanQueuedInReadOrder, forwarderSequential, regenerated every run). The per-file ordering (launchReader / fileStream) is not modelled as an interleaving system; the real pipeline is also run with 1-8 preprocessor threads and pseudo-random delays and must deliver exactly the model's sequence with matching preprocess tags.", "level_note": LEVEL_NOTE_COMMON, "explanation": 'theorems about the sequential model; timing independence by differential runs under randomised delays/thread counts (500/6000 cases)',
     },
     "C07": {
-        "suites": [("stream", 100, 1500)], "props": ["C07"], "level": "proof", "suite_timeout": 2400,
+        "suites": [("stream", 480, 4800)], "shards": {"stream": 12}, "props": ["C07"], "level": "proof", "suite_timeout": 2400,
         "nontrivial": lambda suite, case, impl: any(l.startswith("impl ev newirr") for l in case["lines"]) and any(l.startswith("impl ev new ") for l in case["lines"]),
         "rule": "cases = a generated tree (22-37 blocks, forks, skipped numbers, LIB policies) whose canonical chain crosses one 100-block bundle boundary; merged files = the complete bundle below the boundary (real DBinBlockWriter), forked one-block files for every forked block (30% missing in a quarter of the cases); a real ForkableHub (kept 100 mostly, else 0/1/2/5) bootstrapped through one one-block pass up to a moment t0 at which its LIB has reached the end of the files; a real stream.New(...).Run started by number (anywhere from the root to the hub head, negative, at/after the stop block), from a delivered New/Undo/Irreversible cursor (half of them on blocks that end up forked out) or through a target cursor, default/final-only/custom filters, stop block in the files / on the boundary / in the hub window / on a skipped number / none; the remaining blocks reach the hub either inside the handler of delivery #k or when the stream is quiescent (the schedule). distinct = sha1 of header+body; non-trivial = the run delivers blocks from files and from the live hub (a handoff happened)",
         "technique": "Lean 4 simulation model of JoiningSource+Stream over the Forkable/HubBurst/FileSourceSeq/Resolver models with an explicit schedule of hub pushes + pure-consumer monitor (Lean) + differential correspondence against the real stream/hub/file source",
         "level_text": "Props/C07 (kernel-checked): handoff_by_number_is_seamless — consumer level, for a start by block number: for every hub state satisfying the forkable invariant (pending chain P), every request for a block at or below the hub LIB retained on its chain, every parent-linked run of merged blocks whose last block is the parent of the first burst block, and every later history of blocks of one consistent tree, the file deliveries ++ the hub burst ++ everything the hub delivers afterwards is accepted by the push/pop consumer, which after the burst stands exactly on <LIB, P> (nothing missing, nothing twice) — built on Seam.headSegment_shape (the hub's retained chain = kept final blocks ++ entries of P, from the invariant) and C01's history theorem; non-vacuity example discharged by kernel evaluation. Simulation level (every store, hub, schedule of hub pushes, configuration): burst_starts_at_requested_block + handoff_replaces_file_side — at the handoff the file event is dropped and the hub's burst starts with exactly that block number, and the file side is discarded (LiveClean, simLoop_prefix: after the handoff no file event is ever delivered; deliveries are never retracted or reordered); non_new_event_is_delivered + undo_is_not_joinable — an Undo or Irreversible event coming out of the cursor resolver never triggers the handoff and is always delivered (the dropped-undo defect fixed by f47de1c). The consumer-level statement (one sequence following the discipline from the consumer state implied by the start point, every canonical block exactly once) depends on files and hub being views of one chain and is decided by the Lean stream monitors on the implementation's runs.", "level_note": LEVEL_NOTE_COMMON, "explanation": 'kernel-checked lemmas about the simulation model + Lean consumer monitors on runs of the real stream/hub/file source under explicit schedules (70/1500 runs)',
     },
     "C13": {
-        "suites": [("stream", 100, 1500), ("filesrc", 300, 4000)], "props": ["C13"], "level": "proof", "suite_timeout": 2400,
+        "suites": [("stream", 480, 4800), ("filesrc", 300, 4000)], "shards": {"stream": 12}, "props": ["C13"], "level": "proof", "suite_timeout": 2400,
         "nontrivial": lambda suite, case, impl: any(l.startswith("impl send stop") or l.startswith("impl send invalidarg") or l.startswith("impl fsend stop") for l in case["lines"]),
         "rule": "same cases as C07, plus the file-source cases of C10 (stop blocks anywhere, also on bundle boundaries inside the files); non-trivial = the stream / file source ended with stop-block-reached or an invalid-argument error",
         "technique": "Lean 4 model of Stream option handling (negative start, start/stop check, final-only cursor check, filter and stop handlers as list transformers) + monitors (nothing above the stop block, filters only remove) + differential correspondence",
         "level_text": "Props/C13: run_respects_bounds — for every run of the stream model (any files, hub, schedule of hub pushes, cursor, options) every delivered event passed the step filter, with a stop block no delivered block is above it and a delivery at the stop height is the last one (stop_block_is_last); filter_only_removes, no_stop_keeps_all, stop_block_delivered — the handler chain as a list transformer; default_filter / final_only_filter / custom_filter — which steps pass; negative_start / nonneg_start — start = max(first streamable, head − distance) saturating at 0; start_after_stop_rejected, final_only_refuses_non_final_cursor — rejected as invalid argument before any source is created. 'The stop block is delivered when it exists' across files/live is decided by the stream monitor.", "level_note": LEVEL_NOTE_COMMON, "explanation": 'theorems for all runs of the model; tie to stream.go by differential runs against the real stream',
     },
     "C11": {
-        "suites": [("faults", 500, 6000), ("stream", 100, 1200), ("resolver", 400, 6000)], "props": ["C11"], "level": "fault_enumeration", "suite_timeout": 2400,
+        "suites": [("faults", 500, 6000), ("stream", 360, 3600), ("resolver", 400, 6000)], "shards": {"stream": 12, "faults": 4}, "props": ["C11"], "level": "fault_enumeration", "suite_timeout": 2400,
         "nontrivial": lambda suite, case, impl: any(l.startswith("impl blk") or l.startswith("failnum") for l in case["lines"]),
         "rule": "cases = a file source over a generated chain in bundles (size 2/3/5/10, 1-6 preprocessor threads, start in the first half, stop near the end) with exactly one injected fault: OpenObject of one bundle fails; FileExists of one bundle fails persistently; the bytes of one bundle are damaged (bad header, length prefix enlarged, truncation inside a message, message made undecodable, I/O error while reading) at a chosen message; the preprocessor fails on one block; the handler fails at call k; plus the stream cases of C07 in which the user handler fails on one block (in half of them on the stop block itself). distinct = sha1 of header+body; non-trivial = at least one block was delivered before the fault / a handler failure was injected",
         "technique": "Lean 4 sequential model giving the allowed outcome set per fault (gap-free prefix bounded by the fault position + error class) + fault-injecting store around the real FileSource + watchdog for Run not returning + late-handler-call detection",
